@@ -65,7 +65,7 @@ def simulate(plan, hist, sched=None, subst=None, calls=None, trace=False):
     def body():
         b = netgen.build(plan, subst=subst)
         sim = b.simulator()
-        out['prepared_at_construction'] = len(Wire.prepared)
+        out['prepared_at_construction'] = hooks.pending_count()
         apply_schedule(sim, sched)
         out['drivers'] = {d.name: len(ds.clockables) for d, ds in sim.clockDrivers.items()}
         for n, vals in calls:
@@ -74,7 +74,7 @@ def simulate(plan, hist, sched=None, subst=None, calls=None, trace=False):
                 sim.clk(n)
             out['traj'].append((netgen.wire_values(b.hw), netgen.leaf_state(b.hw)))
             out['total'].append(sim.total_clks)
-            out['prepared'].append(len(Wire.prepared))
+            out['prepared'].append(hooks.pending_count())
     try:
         if trace:
             with hooks.install() as rec:
@@ -111,7 +111,9 @@ def check_trace(run, events, case, stats):
         if kind == 'constructed':
             run.ev()
             stats['construction_checks'] = stats.get('construction_checks', 0) + 1
-            if new != 0:
+            if new is None:
+                stats['pending_unobservable'] = stats.get('pending_unobservable', 0) + 1
+            elif new != 0:
                 viol('prepared_not_empty', dict(when='construction'), 'Wire.prepared holds %d wires after Simulator construction' % new, 0, new)
             continue
         if kind == 'cycle':
@@ -177,7 +179,9 @@ def check_trace(run, events, case, stats):
             in_cycle = False
             run.ev()
             stats['cycles_judged'] = stats.get('cycles_judged', 0) + 1
-            if old != 0:
+            if old is None:
+                stats['pending_unobservable'] = stats.get('pending_unobservable', 0) + 1
+            elif old != 0:
                 viol('prepared_not_empty', dict(when='cycle_end'), 'cycle %d: Wire.prepared still holds %d wires at the end of the cycle' % (cyc, old), 0, old)
             for w, npre, v, nset in prepared.values():
                 if nset == 0:
@@ -312,7 +316,7 @@ def check_design(run, plan, rnd, T, cap, stats, meta, trace_every=7):
         elif first_diff(twin_ref, r['traj']) is not None:
             sensitive = True
             break
-    P().Wire.prepared = []      # the twin never prepares registers; leave no residue whatever happened
+    hooks.drop_pending()      # the twin never prepares registers; leave no residue whatever happened
     if sensitive:
         run.nt(ph)
         stats['order_sensitive_designs'] = stats.get('order_sensitive_designs', 0) + 1
@@ -334,7 +338,7 @@ def _after_call_checks(run, r, n_expected, case, stats):
     if bad:
         run.violation('prepared_not_empty', dict(when='after_clk'), case, expected=0, observed=r['prepared'][bad[0]],
                       what='Wire.prepared holds %d wires after clk() call %d' % (r['prepared'][bad[0]], bad[0]))
-        P().Wire.prepared = []
+        hooks.drop_pending()
     if r['total'] and r['total'][-1] != n_expected:
         run.violation('total_clks', dict(relation='less' if r['total'][-1] < n_expected else 'more'), case, expected=n_expected, observed=r['total'][-1],
                       what='total_clks is %d after %d requested cycles' % (r['total'][-1], n_expected))
